@@ -58,6 +58,11 @@ def scenarios(quick):
     big = ["compiler 0", "add 0 - " + yv.hx('rule many { strings: $a = "a" $b = /b[bc]/ condition: #a > 10 or $b } '
                                              'rule loops { condition: for all i in (0..700) : (for any j in (0..1) : (j == 1)) } '), "getrules 0 0", "cdestroy 0", "blob 5 " + yv.hx(b"a" * 12500 + b"bbbcbc" * 40)]
     add("scan:growth", big, ["scanner 0 0", "scan target=s0 via=mem ml=0 data=@5", "scan target=s0 via=mem ml=0 data=@5", "sdestroy 0"])
+    # the same growth reached from the other verification engines: a hex string whose atom lies AFTER a jump (prefix verified backwards by the fast hex engine, which reports
+    # every candidate through the match callback), a regexp verified backwards, a chained string - each with enough matches for a second notebook page
+    big2 = ["compiler 0", "add 0 - " + yv.hx('rule fastback { strings: $h = { 41 [1-2] 62 63 64 65 } condition: #h > 10 } rule reback { strings: $r = /A.{1,2}?bcde/ condition: #r > 10 }'),
+            "getrules 0 0", "cdestroy 0", "blob 5 " + yv.hx(b"AxbcdeAxybcde" * 5000)]
+    add("scan:growth:backward-verification", big2, ["scanner 0 0", "scan target=s0 via=mem ml=0 data=@5", "scan target=s0 via=mem ml=0 data=@5", "sdestroy 0"])
     # more API groups: include callback (file name stack, nested lexer buffers), atom quality table, add from bytes / file, rules-level defines + scan from fd
     incs = ["incclear", "incfile inc_a.yar " + yv.hx('include "inc_b.yar"\nrule ia { strings: $a = "ia" condition: $a }'), "incfile inc_b.yar " + yv.hx('rule ib { condition: true }')]
     add("compile:include", incs, ["compiler 0 inc=1", "add 0 - " + yv.hx('include "inc_a.yar"\nrule top { condition: ia and ib }'), "getrules 0 0", "cdestroy 0", "rdestroy 0"])
